@@ -3,8 +3,10 @@ CONSTANTS NB = 3
  Confs <- McConfs2x
  NT = 3
  MaxDup = 2
+ Races = TRUE
  BugAddMiddle = FALSE
  BugTxLoopVar = FALSE
+ BugConfirmRace = FALSE
 INVARIANTS TypeOK ChainLinear Converges CacheSorted CacheKeepsUntilParent CacheOnlyWaiting ConfirmsKept TxOnce
 PROPERTY Forward
 CHECK_DEADLOCK FALSE
